@@ -15,6 +15,10 @@ type SQLLog struct {
 	mu           sync.Mutex
 	Events       []string
 	FailBegin    bool
+	// BeginErrs[i], when non-nil, is what the i-th begin ATTEMPT returns (transient failures: the first attempt fails,
+	// a retry would succeed); attempts beyond the list follow FailBegin
+	BeginErrs []error
+	begins    int
 	FailCommit   bool
 	FailRollback bool
 	// CommitErr / RollbackErr, when set, are returned instead of ErrCommit / ErrRollback (well-known sentinel errors)
@@ -58,8 +62,18 @@ func (c *sqlConn) Begin() (driver.Tx, error) {
 }
 func (c *sqlConn) BeginTx(context.Context, driver.TxOptions) (driver.Tx, error) {
 	c.log.add("begin")
-	if c.log.FailBegin {
-		return nil, ErrBegin
+	c.log.mu.Lock()
+	i := c.log.begins
+	c.log.begins++
+	var berr error
+	if i < len(c.log.BeginErrs) {
+		berr = c.log.BeginErrs[i]
+	} else if c.log.FailBegin {
+		berr = ErrBegin
+	}
+	c.log.mu.Unlock()
+	if berr != nil {
+		return nil, berr
 	}
 	return &sqlTx{c: c}, nil
 }
